@@ -803,7 +803,7 @@ def check_reward(ctx, cls_name, metric_names, delta, M, mkind="?"):
     for pidx in range(P):
         col0, col = M0[..., pidx], N[..., pidx]
         mx = float(col0.max())
-        ctx.check(float(col.max()) <= 1.0 or mx <= 0.0, "normalized-metric-exceeds-one",
+        ctx.check(float(col.max()) <= 1.0, "normalized-metric-exceeds-one",
                   f"metric {metric_names[pidx]} has maximum {float(col.max())!r} after normalisation (raw maximum {mx!r})", wit, mon="normalize")
         if mx > 0.0:
             exp = col0 / mx
@@ -915,7 +915,12 @@ def check_scenario(ctx, dec_idx, rew_idx, steps, variant=0):
     orig_calc, orig_norm = Decision.calculate, Reward.normalizeMetrics
 
     def calc(self, R, V):
-        D = orig_calc(self, R, V)
+        try:
+            D = orig_calc(self, R, V)
+        except Exception as e:  # noqa: BLE001
+            ctx.check(False, f"{pol}-raised", f"{type(self).__name__}.calculate raised {type(e).__name__}: {e} inside the engine",
+                      _wit("decision", pol, R, V, origin="scenario", scenario=wit0), mon="engine_decision")
+            raise
         calls.append((np.array(R, copy=True), np.array(V, copy=True), np.array(D, copy=True), type(self).__name__))
         return D
 
@@ -924,7 +929,7 @@ def check_scenario(ctx, dec_idx, rew_idx, steps, variant=0):
         out = orig_norm(self, M)
         for pidx in range(M0.shape[-1]):
             mx = float(M0[..., pidx].max())
-            ctx.check(float(out[..., pidx].max()) <= 1.0 or mx <= 0.0, "normalized-metric-exceeds-one",
+            ctx.check(float(out[..., pidx].max()) <= 1.0, "normalized-metric-exceeds-one",
                       f"engine: metric {pidx} has maximum {float(out[..., pidx].max())!r} after normalisation", {**wit0, "M": M0.tolist()}, mon="normalize")
         return out
 
